@@ -1777,19 +1777,22 @@ def _build_fn(sf: SourceFile, item: Item, impl, ex: Extract, props, rep, unit, a
                 continue
             es = _next_sig(body_toks, arrow)
             e = es
-            while e < len(body_toks):
-                te = body_toks[e]
-                if te.kind == PUNCT and te.text in OPEN:
-                    e = match_close(body_toks, e) + 1; continue
-                if te.kind == PUNCT and (te.text == "," or te.text in CLOSE):
-                    break
-                e += 1
+            if body_toks[es].kind == PUNCT and body_toks[es].text == "{":
+                e = match_close(body_toks, es) + 1     # a block arm ends with its block (the comma is optional)
+            else:
+                while e < len(body_toks):
+                    te = body_toks[e]
+                    if te.kind == PUNCT and te.text in OPEN:
+                        e = match_close(body_toks, e) + 1; continue
+                    if te.kind == PUNCT and (te.text == "," or te.text in CLOSE):
+                        break
+                    e += 1
             if where == "after_arm":
-                body_toks[e:e] = [T("raw", "; " + text + " }")]
+                body_toks[e:e] = [T("raw", ";\n" + text + "\n}")]
                 body_toks[es:es] = [T("raw", "{ ")]
             else:
                 body_toks[e:e] = [T("raw", " }")]
-                body_toks[es:es] = [T("raw", "{ " + text + " ")]
+                body_toks[es:es] = [T("raw", "{\n" + text + "\n")]
             continue
         if where == "after":
             pos = _stmt_end_from_start(body_toks, _stmt_start_before(body_toks, a0, 1))
